@@ -331,7 +331,7 @@ class PosKwdBinding(AbstractBinding[P], tp.Generic[P]):
         # Unmarshal the args
         umargs = (*(binding[i](v) if i in binding else v for i, v in enumerate(args)),)
         # Unmarshal the keyword arguments.
-        umkwargs = {k: binding[k](v) if k in binding else k for k, v in kwargs.items()}
+        umkwargs = {k: binding[k](v) if k in binding else v for k, v in kwargs.items()}
         return umargs, umkwargs
 
 
@@ -390,7 +390,7 @@ class KwdArgsBinding(AbstractBinding[P], tp.Generic[P]):
         # Unmarshal the positional arguments
         umargs = (*(varpos(v) for v in args),)
         # Unmarshal the keyword arguments.
-        umkwargs = {k: binding[k](v) if k in binding else k for k, v in kwargs.items()}
+        umkwargs = {k: binding[k](v) if k in binding else v for k, v in kwargs.items()}
         return umargs, umkwargs
 
 
@@ -411,7 +411,7 @@ class KwdBinding(AbstractBinding[P], tp.Generic[P]):
     ) -> tuple[P.args, P.kwargs]:
         binding = self.binding
         # Unmarshal the keyword arguments.
-        umkwargs = {k: binding[k](v) if k in binding else k for k, v in kwargs.items()}
+        umkwargs = {k: binding[k](v) if k in binding else v for k, v in kwargs.items()}
         return args, umkwargs
 
 
@@ -460,7 +460,7 @@ class PosOrKwdBinding(AbstractBinding[P], tp.Generic[P]):
         # Unmarshal the positional args.
         umargs = (*(binding[i](v) if i in binding else v for i, v in enumerate(args)),)
         # Unmarshal the keyword arguments.
-        umkwargs = {k: binding[k](v) if k in binding else k for k, v in kwargs.items()}
+        umkwargs = {k: binding[k](v) if k in binding else v for k, v in kwargs.items()}
         return umargs, umkwargs
 
 
